@@ -19,15 +19,25 @@
               class of the same short name is found in its place.
     (b) `forwardref_injective` — distinct classes, distinct references (`injective_needed`: the short name gives two
         classes one reference).
-    (c) `text_roundtrip` — the qualified name as TEXT, bare or prefixed with the module's name, finds the class provided
-        `"<module>."` does not occur inside the qualified name; `text_roundtrip_segments`: for a dot-free module name it
-        suffices that no ENCLOSING class's name ends with the module's name; `text_roundtrip_toplevel`: no condition for a
-        top-level class.  `text_roundtrip_needed` (DESIGN.md §11.0.1 item 27): text `m.P` in module `m` finds the top-level
-        `P`, not `m.P`.  `text_first_segment_not_enough`: "the first segment differs from the module's name" does NOT
-        suffice — `A.m.Q` becomes `A.Q`, and `Xm.Q` becomes `XQ` because `str.replace` works on characters.
+    (c) the qualified name as TEXT (`refs.forwardref(text, module=m)`, as of befc63c: `"<module>."` is removed only where it
+        is a whole dotted name — not behind a character of `[A-Za-z0-9_.]`):
+          `text_roundtrip_prefixed` — `module.qualname` ALWAYS finds the class, whatever anything is called;
+          `text_bare_exact` — the bare qualified name finds the class unless the text STARTS with `"<module>."`; then exactly
+              that qualifier is taken off and the rest is looked up in the module;
+          `text_roundtrip` (hypothesis: the text does not start with `"<module>."`), `text_roundtrip_segments` (any module
+              name, dotted or not: the module's segments are not a proper prefix of the class's path),
+              `text_roundtrip_first_segment` (dot-free module name: the outermost class is not called like the module),
+              `text_roundtrip_toplevel` (no condition);
+          `text_roundtrip_needed` — the ambiguity that remains (DESIGN.md §11.0.1 item 27): bare `m.P` in module `m` with an
+              outer class `m` finds the top-level `P`; `dotted_module_ambiguity`: the same for module `p.q`;
+          `befc63c_needed` / `befc63c_repairs` — the tree before befc63c (`str.replace` on characters) read `A.m.Q` as
+              `A.Q` and `Xm.Q` as `XQ` and found neither; the current function finds both (`dotted_module_roundtrip`:
+              likewise `A.p.q.Y` in module `p.q`).
     (d) `local_class_unresolvable` — the reference of a class made inside a function evaluates to an ERROR (so
-        `graph._evaluated`'s try/except is necessary), provided `"<module>."` does not occur in its name;
-        `local_class_found_when_function_named_like_module`: without that proviso it can be found.
+        `graph._evaluated`'s try/except is necessary), provided its name does not START with `"<module>."` (the outermost
+        function / class is not called like the module); `local_class_found_when_function_named_like_module`: without that
+        proviso it can be found.  (An object without `__qualname__` — a TypeAliasType — is named by its `__name__` with a
+        leading `"<module>."` removed; for an identifier that is the name itself: `stripQual_ident`.)
     (e) `found_iff_bound_at_declared` (no hypothesis on the namespace) — the reference of a named object finds the object
         iff it is bound at the path its own name declares; `evaluate_forwardref_declared`: what it finds is whatever is
         bound there; `renamed_binding`: `R = NewType("I", …)` is not found, `S = NewType("A", …)` finds class `A`.
@@ -48,11 +58,19 @@ theorem dotFree_cons {c : Char} {cs : Str} : dotFree (c :: cs) = true ↔ c ≠ 
   · rintro ⟨h1, h2⟩; exact ⟨fun h => h1 h.symm, h2⟩
   · rintro ⟨h1, h2⟩; exact ⟨fun h => h1 h.symm, h2⟩
 
-theorem identLike_iff {s : Str} : identLike s = true ↔ s ≠ [] ∧ '.' ∉ s ∧ '<' ∉ s := by
-  simp [identLike, and_assoc]
+theorem identLike_iff {s : Str} : identLike s = true ↔ s ≠ [] ∧ ∀ c ∈ s, isWordChar c = true := by
+  simp [identLike]
+
+theorem identLike_no_dot {s : Str} (h : identLike s = true) : '.' ∉ s :=
+  fun hm => absurd ((identLike_iff.1 h).2 _ hm) (by decide)
 
 theorem identLike_dotFree {s : Str} (h : identLike s = true) : dotFree s = true :=
-  dotFree_iff.2 (identLike_iff.1 h).2.1
+  dotFree_iff.2 (identLike_no_dot h)
+
+theorem isQualChar_of_word {c : Char} (h : isWordChar c = true) : isQualChar c = true := by simp [isQualChar, h]
+
+theorem qualChars_of_identLike {s : Str} (h : identLike s = true) : ∀ c ∈ s, isQualChar c = true :=
+  fun c hc => isQualChar_of_word ((identLike_iff.1 h).2 c hc)
 
 theorem splitDots_ne_nil (s : Str) : splitDots s ≠ [] := by
   induction s with
@@ -116,20 +134,6 @@ theorem mem_joinDots {segs : List Str} {c : Char} (h : c ∈ joinDots segs) : c 
           · exact .inl h
           · exact .inr ⟨x, List.mem_cons_of_mem _ hx, hc⟩
 
-/-- Where the pattern does not occur, `replace` changes nothing. -/
-theorem stripGo_noOcc {pat s : Str} (h : noOcc pat s = true) : stripGo pat 0 s = s := by
-  induction s with
-  | nil => rfl
-  | cons c cs ih =>
-    simp only [noOcc, Bool.and_eq_true, Bool.not_eq_true'] at h
-    simp [stripGo, h.1, ih h.2]
-
-theorem stripAll_noOcc {pat s : Str} (h : noOcc pat s = true) : stripAll pat s = s := by
-  unfold stripAll
-  split
-  · rfl
-  · exact stripGo_noOcc h
-
 theorem stripGo_skip (pat xs t : Str) : stripGo pat xs.length (xs ++ t) = stripGo pat 0 t := by
   induction xs with
   | nil => rfl
@@ -147,24 +151,64 @@ theorem stripGo_pat_append {pat : Str} (t : Str) (hp : pat ≠ []) : stripGo pat
 
 theorem modulePat_ne_nil (m : Str) : modulePat m ≠ [] := by simp [modulePat]
 
-theorem stripAll_modulePat_prefix (m q : Str) (h : noOcc (modulePat m) q = true) :
-    stripAll (modulePat m) (modulePat m ++ q) = q := by
-  have : (modulePat m).isEmpty = false := by simp [modulePat]
-  simp only [stripAll, this]
-  rw [stripGo_pat_append _ (modulePat_ne_nil m)]
-  exact stripGo_noOcc h
+/-! #### `re.sub(rf"(?<![\w.]){module}\.", "", text)` -/
 
-/-- A pattern ending in a dot does not occur in a dot-free text. -/
-theorem noOcc_of_dotFree (m : Str) {s : Str} (h : dotFree s = true) : noOcc (modulePat m) s = true := by
+/-- Behind a character of `[\w.]`, in a text of such characters, nothing is removed. -/
+theorem stripQGo_blocked {pat s : Str} (hs : ∀ c ∈ s, isQualChar c = true) : stripQGo pat 0 true s = s := by
   induction s with
   | nil => rfl
   | cons c cs ih =>
-    have hcs := (dotFree_cons.1 h).2
-    simp only [noOcc, Bool.and_eq_true, Bool.not_eq_true', ih hcs, and_true]
-    apply Bool.eq_false_iff.2
-    intro hp
-    rw [List.isPrefixOf_iff_prefix] at hp
-    exact dotFree_iff.1 h (hp.subset (by simp [modulePat]))
+    simp [stripQGo, hs c (by simp), ih (fun x hx => hs x (List.mem_cons_of_mem _ hx))]
+
+theorem stripQGo_skip_dot (pat xs t : Str) (b : Bool) :
+    stripQGo pat (xs.length + 1) b (xs ++ '.' :: t) = stripQGo pat 0 true t := by
+  induction xs generalizing b with
+  | nil => simp [stripQGo, isQualChar, isWordChar]
+  | cons c cs ih => simpa [stripQGo] using ih (isQualChar c)
+
+/-- A leading qualifier is removed; its own dot shields what follows. -/
+theorem stripQual_prefix (m : Str) {q : Str} (hq : ∀ c ∈ q, isQualChar c = true) :
+    stripQual m (modulePat m ++ q) = q := by
+  have hpre : (modulePat m).isPrefixOf (modulePat m ++ q) = true := by
+    rw [List.isPrefixOf_iff_prefix]; exact ⟨q, rfl⟩
+  cases m with
+  | nil =>
+    simp only [stripQual, modulePat, List.nil_append, List.singleton_append] at hpre ⊢
+    simp only [stripQGo, hpre, Bool.not_false, Bool.and_self, if_true, List.length_singleton, Nat.sub_self]
+    have : isQualChar '.' = true := by decide
+    rw [this]; exact stripQGo_blocked hq
+  | cons p ms =>
+    have hlen : (modulePat (p :: ms)).length - 1 = ms.length + 1 := by simp [modulePat]
+    have hs : modulePat (p :: ms) ++ q = p :: (ms ++ '.' :: q) := by simp [modulePat]
+    rw [hs] at hpre
+    simp only [stripQual, hs, stripQGo, hpre, Bool.not_false, Bool.and_self, if_true, hlen]
+    rw [stripQGo_skip_dot]; exact stripQGo_blocked hq
+
+/-- Where the text does not START with the qualifier, a text of `[\w.]` characters is left alone: the qualifier inside
+    `Myshapes.A` or `Outer.shapes.Q` stays. -/
+theorem stripQual_not_prefix {m s : Str} (hs : ∀ c ∈ s, isQualChar c = true)
+    (h : (modulePat m).isPrefixOf s = false) : stripQual m s = s := by
+  cases s with
+  | nil => rfl
+  | cons c cs =>
+    simp only [stripQual, stripQGo, h, Bool.and_false, Bool.false_eq_true, if_false, hs c (by simp)]
+    rw [stripQGo_blocked (fun x hx => hs x (List.mem_cons_of_mem _ hx))]
+
+/-- … and where it does, exactly that leading qualifier goes. -/
+theorem stripQual_is_prefix {m s : Str} (hs : ∀ c ∈ s, isQualChar c = true)
+    (h : (modulePat m).isPrefixOf s = true) : stripQual m s = s.drop (modulePat m).length := by
+  rw [List.isPrefixOf_iff_prefix] at h
+  obtain ⟨t, rfl⟩ := h
+  rw [stripQual_prefix m (fun c hc => hs c (List.mem_append_right _ hc))]
+  simp
+
+/-- An identifier is never touched. -/
+theorem stripQual_ident (m : Str) {s : Str} (h : identLike s = true) : stripQual m s = s := by
+  apply stripQual_not_prefix (qualChars_of_identLike h)
+  apply Bool.eq_false_iff.2
+  intro hp
+  rw [List.isPrefixOf_iff_prefix] at hp
+  exact identLike_no_dot h (hp.subset (by simp [modulePat]))
 
 /-- Where no character is `<`, nothing of `"<locals>."` is found. -/
 theorem stripGo_locals_free {xs : Str} (t : Str) (h : '<' ∉ xs) :
@@ -179,7 +223,8 @@ theorem stripGo_locals_free {xs : Str} (t : Str) (h : '<' ∉ xs) :
     simp [stripGo, localsPat, localsMarker, List.isPrefixOf, hc]
     simpa [localsPat, localsMarker] using ih hcs
 
-theorem not_lt_mem_of_identLike {s : Str} (h : identLike s = true) : '<' ∉ s := (identLike_iff.1 h).2.2
+theorem not_lt_mem_of_identLike {s : Str} (h : identLike s = true) : '<' ∉ s :=
+  fun hm => absurd ((identLike_iff.1 h).2 _ hm) (by decide)
 
 theorem identLike_ne_marker {s : Str} (h : identLike s = true) : s ≠ localsMarker := by
   intro e
@@ -238,61 +283,33 @@ theorem strip_locals_ident {segs : List Str} (h : ∀ s ∈ segs, identLike s = 
   rw [stripAll_locals_eq]
   simpa [stripGo] using stripGo_locals_free [] hlt
 
-/-! ### occurrences of `"<module>."` in a dotted name, at segment level -/
+/-! ### a dotted name that starts with `"<module>."`, at segment level -/
 
-theorem exists_of_noOcc_false {pat t : Str} (h : noOcc pat t = false) : ∃ a b, t = a ++ pat ++ b := by
-  induction t with
-  | nil => simp [noOcc] at h
-  | cons c cs ih =>
-    simp only [noOcc, Bool.and_eq_false_iff, Bool.not_eq_false'] at h
-    rcases h with h | h
-    · rw [List.isPrefixOf_iff_prefix] at h
-      obtain ⟨b, hb⟩ := h
-      exact ⟨[], b, by simp [hb]⟩
-    · obtain ⟨a, b, hab⟩ := ih h
-      exact ⟨c :: a, b, by simp [hab]⟩
+theorem qualChars_joinDots {segs : List Str} (h : ∀ s ∈ segs, identLike s = true) :
+    ∀ c ∈ joinDots segs, isQualChar c = true := by
+  intro c hc
+  rcases mem_joinDots hc with rfl | ⟨s, hs, hcs⟩
+  · decide
+  · exact qualChars_of_identLike (h s hs) c hcs
 
-/-- the last segment of `(a + m).split(".")` ends with `m` when `m` has no dot -/
-theorem splitDots_append_dotFree (a : Str) {m : Str} (hm : dotFree m = true) :
-    ∃ init l, splitDots (a ++ m) = init ++ [l ++ m] := by
-  induction a with
-  | nil => exact ⟨[], [], by simp [splitDots_dotFree hm]⟩
-  | cons c a ih =>
-    obtain ⟨init, l, h⟩ := ih
-    by_cases hc : c = '.'
-    · exact ⟨[] :: init, l, by simp [splitDots, hc, h]⟩
-    · cases init with
-      | nil => exact ⟨[], c :: l, by simp [splitDots, hc, h, consHead]⟩
-      | cons i is => exact ⟨(c :: i) :: is, l, by simp [splitDots, hc, h, consHead]⟩
+/-- `a` is a proper prefix of `b` -/
+def properPrefix (a b : List Str) : Bool := a.isPrefixOf b && decide (a.length < b.length)
 
-/-- For a module name without dot: `"<module>."` occurs in a dotted name only if a segment other than the last ENDS
-    with the module's name (`Xshapes.A` in module `shapes`). -/
-theorem noOcc_modulePat_of_segments {m : Str} {segs : List Str} (hm : dotFree m = true)
-    (hsegs : ∀ s ∈ segs, dotFree s = true) (hsuf : ∀ s ∈ segs.dropLast, m.isSuffixOf s = false) :
-    noOcc (modulePat m) (joinDots segs) = true := by
-  cases segs with
-  | nil => rfl
-  | cons s0 rest =>
-  by_cases hf : noOcc (modulePat m) (joinDots (s0 :: rest)) = true
-  · exact hf
-  exfalso
-  have hf : noOcc (modulePat m) (joinDots (s0 :: rest)) = false := by simpa using hf
-  obtain ⟨a, b, hab⟩ := exists_of_noOcc_false hf
-  have hsplit := splitDots_joinDots (by simp) hsegs
-  rw [hab] at hsplit
-  have : a ++ modulePat m ++ b = (a ++ m) ++ '.' :: b := by simp [modulePat]
-  rw [this, splitDots_append_dot] at hsplit
-  obtain ⟨init, l, hl⟩ := splitDots_append_dotFree a hm
-  rw [hl] at hsplit
-  obtain ⟨x, xs, hx⟩ := List.exists_cons_of_ne_nil (splitDots_ne_nil b)
-  rw [hx] at hsplit
-  have hmem : l ++ m ∈ (s0 :: rest).dropLast := by
-    rw [← hsplit]
-    rw [List.dropLast_append_of_ne_nil (by simp)]
-    simp
-  have := hsuf _ hmem
-  rw [← Bool.not_eq_true, List.isSuffixOf_iff_suffix] at this
-  exact this ⟨l, rfl⟩
+/-- A dotted name starts with `"<module>."` only if the segments of the module's name (one, or several for `pkg.mod`) are
+    the first segments of the name and something follows them. -/
+theorem properPrefix_of_text_prefix {m : Str} {segs : List Str} (hne : segs ≠ [])
+    (hsegs : ∀ s ∈ segs, dotFree s = true) (h : (modulePat m).isPrefixOf (joinDots segs) = true) :
+    properPrefix (splitDots m) segs = true := by
+  rw [List.isPrefixOf_iff_prefix] at h
+  obtain ⟨b, hb⟩ := h
+  have hsplit := splitDots_joinDots hne hsegs
+  have : modulePat m ++ b = m ++ '.' :: b := by simp [modulePat]
+  rw [← hb, this, splitDots_append_dot] at hsplit
+  have hlen : 0 < (splitDots b).length := List.length_pos_iff.2 (splitDots_ne_nil b)
+  simp only [properPrefix, Bool.and_eq_true, decide_eq_true_eq, List.isPrefixOf_iff_prefix]
+  refine ⟨⟨splitDots b, hsplit⟩, ?_⟩
+  rw [← hsplit, List.length_append]
+  omega
 
 /-! ### resolution -/
 
@@ -429,7 +446,7 @@ theorem forwardref_of_ident {o : Obj} (hid : ∀ s ∈ declaredPath o, identLike
     have hqn : qualnameOf o = o.name := by simp [qualnameOf, hq]
     have hqual : isQualified o = true := by simp [isQualified, rawQualname, hq]
     simp only [forwardrefOfClass, hqual, if_true, hqn, hp, joinDots]
-    rw [stripAll_noOcc (noOcc_of_dotFree _ (identLike_dotFree hn))]
+    rw [stripQual_ident _ hn]
   | some segs =>
     have hp : declaredPath o = segs := by simp [declaredPath, hq]
     rw [hp] at hid ⊢
@@ -518,28 +535,76 @@ theorem forwardref_injective {ns : NS} (hwf : wf ns = true) {c d : Obj} (hc : c 
 
 /-! ### (c) naming a class by text -/
 
-/-- (c) The text of a class's qualified name, bare or prefixed with the module's name, finds the class — provided
-    `"<module>."` does not occur INSIDE the qualified name (refs.forwardref removes every occurrence). -/
-theorem text_roundtrip {ns : NS} (hwf : wf ns = true) {c : Obj} (hc : c ∈ ns.objs) (hk : c.kind = .cls)
-    (hl : isLocal c = false) (hno : noOcc (modulePat c.module) (joinDots (declaredPath c)) = true) :
-    evaluateRef ns (forwardrefOfText (joinDots (declaredPath c)) c.module) = .ok c.id ∧
-    evaluateRef ns (forwardrefOfText (modulePat c.module ++ joinDots (declaredPath c)) c.module) = .ok c.id := by
-  have h := forwardref_roundtrip hwf hc hk hl
-  rw [forwardref_keeps_qualname hwf hc hk hl] at h
-  constructor
-  · simpa [forwardrefOfText, stripAll_noOcc hno] using h
-  · simpa [forwardrefOfText, stripAll_modulePat_prefix _ _ hno] using h
-
-/-- (c) at segment level, for a module name without dot: it suffices that no class AROUND the class has a name ending with
-    the module's name (the last segment is free). -/
-theorem text_roundtrip_segments {ns : NS} (hwf : wf ns = true) {c : Obj} (hc : c ∈ ns.objs) (hk : c.kind = .cls)
-    (hl : isLocal c = false) (hm : dotFree c.module = true)
-    (hsuf : ∀ s ∈ (declaredPath c).dropLast, c.module.isSuffixOf s = false) :
-    evaluateRef ns (forwardrefOfText (joinDots (declaredPath c)) c.module) = .ok c.id ∧
+/-- (c) The qualified name of a class prefixed with its module's name ALWAYS finds the class: whatever the module, the class
+    and the classes around it are called (`shapes.shapes.Point` in module `shapes` is the class `shapes.Point`). -/
+theorem text_roundtrip_prefixed {ns : NS} (hwf : wf ns = true) {c : Obj} (hc : c ∈ ns.objs) (hk : c.kind = .cls)
+    (hl : isLocal c = false) :
     evaluateRef ns (forwardrefOfText (modulePat c.module ++ joinDots (declaredPath c)) c.module) = .ok c.id := by
   obtain ⟨segs, _, _, hp, _, hid⟩ := cls_noLocals_facts hwf hc hk hl
-  refine text_roundtrip hwf hc hk hl (noOcc_modulePat_of_segments hm ?_ hsuf)
-  rw [hp]; exact fun s hs => identLike_dotFree (hid s hs)
+  have h := forwardref_roundtrip hwf hc hk hl
+  rw [forwardref_keeps_qualname hwf hc hk hl] at h
+  rw [forwardrefOfText, stripQual_prefix _ (qualChars_joinDots (by rw [hp]; exact hid))]
+  exact h
+
+/-- (c) What the BARE qualified name of a class finds, exactly: the class — unless the text starts with `"<module>."`; then
+    that qualifier is taken off and the REST is looked up in the module (the ambiguity of DESIGN.md §11.0.1 item 27: such a
+    text is read as module-qualified). -/
+theorem text_bare_exact {ns : NS} (hwf : wf ns = true) {c : Obj} (hc : c ∈ ns.objs) (hk : c.kind = .cls)
+    (hl : isLocal c = false) :
+    evaluateRef ns (forwardrefOfText (joinDots (declaredPath c)) c.module) =
+      if (modulePat c.module).isPrefixOf (joinDots (declaredPath c)) then
+        evaluateRef ns { text := (joinDots (declaredPath c)).drop (modulePat c.module).length, module := c.module }
+      else .ok c.id := by
+  obtain ⟨segs, _, _, hp, _, hid⟩ := cls_noLocals_facts hwf hc hk hl
+  have hq := qualChars_joinDots (segs := declaredPath c) (by rw [hp]; exact hid)
+  have h := forwardref_roundtrip hwf hc hk hl
+  rw [forwardref_keeps_qualname hwf hc hk hl] at h
+  cases hpre : (modulePat c.module).isPrefixOf (joinDots (declaredPath c)) with
+  | true => simp [forwardrefOfText, stripQual_is_prefix hq hpre]
+  | false => simpa [forwardrefOfText, stripQual_not_prefix hq hpre] using h
+
+/-- (c) The bare and the module-prefixed qualified name both find the class, provided the bare text does not start with
+    `"<module>."`. -/
+theorem text_roundtrip {ns : NS} (hwf : wf ns = true) {c : Obj} (hc : c ∈ ns.objs) (hk : c.kind = .cls)
+    (hl : isLocal c = false) (hno : (modulePat c.module).isPrefixOf (joinDots (declaredPath c)) = false) :
+    evaluateRef ns (forwardrefOfText (joinDots (declaredPath c)) c.module) = .ok c.id ∧
+    evaluateRef ns (forwardrefOfText (modulePat c.module ++ joinDots (declaredPath c)) c.module) = .ok c.id := by
+  refine ⟨?_, text_roundtrip_prefixed hwf hc hk hl⟩
+  rw [text_bare_exact hwf hc hk hl, hno]; rfl
+
+/-- (c) at segment level, for ANY module name (`mod`, `pkg.mod`): it suffices that the segments of the module's name are not
+    the first segments of the class's path with something behind them. -/
+theorem text_roundtrip_segments {ns : NS} (hwf : wf ns = true) {c : Obj} (hc : c ∈ ns.objs) (hk : c.kind = .cls)
+    (hl : isLocal c = false) (hseg : properPrefix (splitDots c.module) (declaredPath c) = false) :
+    evaluateRef ns (forwardrefOfText (joinDots (declaredPath c)) c.module) = .ok c.id ∧
+    evaluateRef ns (forwardrefOfText (modulePat c.module ++ joinDots (declaredPath c)) c.module) = .ok c.id := by
+  obtain ⟨segs, _, hne, hp, _, hid⟩ := cls_noLocals_facts hwf hc hk hl
+  refine text_roundtrip hwf hc hk hl ?_
+  cases hpre : (modulePat c.module).isPrefixOf (joinDots (declaredPath c)) with
+  | false => rfl
+  | true =>
+    have := properPrefix_of_text_prefix (by rw [hp]; exact hne)
+      (by rw [hp]; exact fun s hs => identLike_dotFree (hid s hs)) hpre
+    rw [hseg] at this
+    exact absurd this (by decide)
+
+/-- (c) for a module name without dot: it suffices that the FIRST segment of the qualified name — the outermost class — is
+    not called like the module.  (Names that merely end with or contain the module's name are harmless since befc63c.) -/
+theorem text_roundtrip_first_segment {ns : NS} (hwf : wf ns = true) {c : Obj} (hc : c ∈ ns.objs) (hk : c.kind = .cls)
+    (hl : isLocal c = false) (hm : dotFree c.module = true) (hfirst : (declaredPath c).head? ≠ some c.module) :
+    evaluateRef ns (forwardrefOfText (joinDots (declaredPath c)) c.module) = .ok c.id ∧
+    evaluateRef ns (forwardrefOfText (modulePat c.module ++ joinDots (declaredPath c)) c.module) = .ok c.id := by
+  refine text_roundtrip_segments hwf hc hk hl ?_
+  cases hpp : properPrefix (splitDots c.module) (declaredPath c) with
+  | false => rfl
+  | true =>
+    exfalso
+    simp only [properPrefix, Bool.and_eq_true, splitDots_dotFree hm] at hpp
+    cases hd : declaredPath c with
+    | nil => simp [hd] at hpp
+    | cons x xs =>
+      simp only [hd, List.isPrefixOf, Bool.and_eq_true, beq_iff_eq] at hpp
+      exact hfirst (by simp [hd, hpp.1.1])
 
 /-- (c) for a top-level class there is no condition at all. -/
 theorem text_roundtrip_toplevel {ns : NS} (hwf : wf ns = true) {c : Obj} (hc : c ∈ ns.objs) (hk : c.kind = .cls)
@@ -554,8 +619,11 @@ theorem text_roundtrip_toplevel {ns : NS} (hwf : wf ns = true) {c : Obj} (hc : c
     simp only [isLocal, hq, hasLocals, List.contains_cons, List.contains_nil, Bool.or_false]
     rw [hsn]; simpa using (identLike_ne_marker f.nameOk).symm
   have hp : declaredPath c = [s] := by simp [declaredPath, hq]
-  have := text_roundtrip hwf hc hk hl (by
-    rw [hp, hsn]; exact noOcc_of_dotFree _ (identLike_dotFree f.nameOk))
+  have := text_roundtrip_segments hwf hc hk hl (by
+    simp only [properPrefix, hp, Bool.and_eq_false_iff, decide_eq_false_iff_not]
+    right
+    have := List.length_pos_iff.2 (splitDots_ne_nil c.module)
+    simp only [List.length_singleton]; omega)
   simpa [hp, joinDots] using this
 
 /-! ### (d) a class made inside a function -/
@@ -591,10 +659,11 @@ theorem step_on_func {ns : NS} (hwf : wf ns = true) {i : Nat} (hf : (objOf ns i)
       exact absurd this.2 (by decide)
 
 /-- (d) The reference of a class made inside a function never evaluates: `refs.evaluate` RAISES (the caller's try/except
-    in `graph._evaluated` is necessary) — provided `"<module>."` does not occur in the name (else see
+    in `graph._evaluated` is necessary) — provided its name (`f.L` for `f.<locals>.L`) does not START with `"<module>."`,
+    i.e. the outermost function or class is not called like the module (else the qualifier is taken off, see
     `local_class_found_when_function_named_like_module`). -/
 theorem local_class_unresolvable {ns : NS} (hwf : wf ns = true) {c : Obj} (hc : c ∈ ns.objs) (hk : c.kind = .cls)
-    (hloc : isLocal c = true) (hno : noOcc (modulePat c.module) (qualnameOf c) = true) :
+    (hloc : isLocal c = true) (hno : (modulePat c.module).isPrefixOf (qualnameOf c) = false) :
     ∃ e, evaluateRef ns (forwardrefOfClass c) = .error e := by
   obtain ⟨segs, f⟩ := clsFacts (wf_objOk hwf hc) hk
   have hl : hasLocals segs = true := by simpa [isLocal, f.qual] using hloc
@@ -629,8 +698,6 @@ theorem local_class_unresolvable {ns : NS} (hwf : wf ns = true) {c : Obj} (hc : 
     simp only [qualnameOf, f.qual, this, hpre, List.filter_append, List.filter_cons, hmk,
       List.filter_eq_self.2 hasNM, List.append_assoc]
     rfl
-  have href : forwardrefOfClass c = { text := qualnameOf c, module := c.module } := by
-    simp only [forwardrefOfClass, stripAll_noOcc hno, ite_self]
   have hid : ∀ s ∈ as ++ (bs.filter notMarker ++ [c.name]), identLike s = true := by
     intro s hs
     rcases List.mem_append.1 hs with h | h
@@ -641,6 +708,9 @@ theorem local_class_unresolvable {ns : NS} (hwf : wf ns = true) {c : Obj} (hc : 
         · exact h'
         · simp [notMarker, h'] at hsn
       · rw [List.mem_singleton.1 h]; exact f.nameOk
+  have href : forwardrefOfClass c = { text := qualnameOf c, module := c.module } := by
+    have hw : ∀ x ∈ qualnameOf c, isQualChar x = true := by rw [hq]; exact qualChars_joinDots hid
+    simp only [forwardrefOfClass, stripQual_not_prefix hw hno, ite_self]
   rw [href, hq, evaluateRef_joinDots ns (by simp) hid,
     resolveSegs_append ns hAne (by simp)]
   cases hr : resolveSegs ns (.modl c.module) as with
@@ -754,43 +824,96 @@ theorem injective_needed :
     forwardrefByDunderName (exObj 7) = forwardrefByDunderName (exObj 17) := by
   decide
 
-/-- (c) on the example: `A.B.C` and `m.A.B.C` both find class 8 (no class around it ends in `m`). -/
+/-- (c) on the example: `A.B.C` and `m.A.B.C` both find class 8 (the outermost class is not called `m`). -/
 example : evaluateRef ex (forwardrefOfText ['A', '.', 'B', '.', 'C'] ['m']) = .ok 8 ∧
     evaluateRef ex (forwardrefOfText ['m', '.', 'A', '.', 'B', '.', 'C'] ['m']) = .ok 8 :=
-  text_roundtrip_segments (c := exObj 8) ex_wf (by decide) rfl rfl (by decide) (by decide)
+  text_roundtrip_first_segment (c := exObj 8) ex_wf (by decide) rfl rfl (by decide) (by decide)
 
 /-- (c) top level: the class named like its module is found by `m` and by `m.m`. -/
 example : evaluateRef ex (forwardrefOfText ['m'] ['m']) = .ok 1 ∧
     evaluateRef ex (forwardrefOfText ['m', '.', 'm'] ['m']) = .ok 1 :=
   text_roundtrip_toplevel (c := exObj 1) ex_wf (by decide) rfl rfl
 
-/-- (c) needs its hypothesis (DESIGN.md §11.0.1 item 27): the text `m.P` in module `m` is read as "`P` of module `m`";
-    it finds class 3, not the class 2 whose qualified name it is; `m.m.D` finds nothing although class 5 is called so. -/
+/-- (c) prefixed, where the outer classes ARE called like the module: `m.m.P` is class 2, `m.m.m.D` is class 5. -/
+example : evaluateRef ex (forwardrefOfText ['m', '.', 'm', '.', 'P'] ['m']) = .ok 2 ∧
+    evaluateRef ex (forwardrefOfText ['m', '.', 'm', '.', 'm', '.', 'D'] ['m']) = .ok 5 :=
+  ⟨text_roundtrip_prefixed (c := exObj 2) ex_wf (by decide) rfl rfl,
+   text_roundtrip_prefixed (c := exObj 5) ex_wf (by decide) rfl rfl⟩
+
+/-- (c) The ambiguity that REMAINS (DESIGN.md §11.0.1 item 27), and the hypothesis of `text_roundtrip` is needed: the bare
+    text `m.P` in module `m` is read as "`P` of module `m`" and finds class 3, not the class 2 whose qualified name it is;
+    the bare `m.m.D` is read as `m.D`, which is nothing, although class 5 is called so. -/
 theorem text_roundtrip_needed :
-    declaredPath (exObj 2) = [['m'], ['P']] ∧
+    wf ex = true ∧ declaredPath (exObj 2) = [['m'], ['P']] ∧
+    forwardrefOfText ['m', '.', 'P'] ['m'] = ⟨['P'], ['m']⟩ ∧
     evaluateRef ex (forwardrefOfText ['m', '.', 'P'] ['m']) = .ok 3 ∧
-    evaluateRef ex (forwardrefOfText ['m', '.', 'm', '.', 'P'] ['m']) = .ok 3 ∧
     declaredPath (exObj 5) = [['m'], ['m'], ['D']] ∧
-    evaluateRef ex (forwardrefOfText ['m', '.', 'm', '.', 'D'] ['m']) = .error .nameError := by
+    forwardrefOfText ['m', '.', 'm', '.', 'D'] ['m'] = ⟨['m', '.', 'D'], ['m']⟩ ∧
+    evaluateRef ex (forwardrefOfText ['m', '.', 'm', '.', 'D'] ['m']) = .error .attributeError := by
   decide
 
-/-- "The FIRST segment differs from the module's name" is NOT enough for (c): the module's name as an inner segment
-    (`A.m.Q` → `A.Q`) or as the END of a segment (`Xm.Q` → `XQ`: the replacement works on characters) breaks the text. -/
+/-- What befc63c repaired.  Module `m`; classes `A.m.Q` (3: the module's name as an inner segment) and `Xm.Q` (5: a name
+    ENDING with the module's name). -/
 def ex2 : NS :=
   { objs := [cls 1 [['A']] ['m'], cls 2 [['A'], ['m']] ['m'], cls 3 [['A'], ['m'], ['Q']] ['m'],
              cls 4 [['X', 'm']] ['m'], cls 5 [['X', 'm'], ['Q']] ['m']],
     binds := [⟨.modl ['m'], ['A'], 1⟩, ⟨.obj 1, ['m'], 2⟩, ⟨.obj 2, ['Q'], 3⟩,
               ⟨.modl ['m'], ['X', 'm'], 4⟩, ⟨.obj 4, ['Q'], 5⟩] }
 
-theorem text_first_segment_not_enough :
-    wf ex2 = true ∧
-    forwardrefOfText ['A', '.', 'm', '.', 'Q'] ['m'] = ⟨['A', '.', 'Q'], ['m']⟩ ∧
-    evaluateRef ex2 (forwardrefOfText ['A', '.', 'm', '.', 'Q'] ['m']) = .error .attributeError ∧
-    forwardrefOfText ['X', 'm', '.', 'Q'] ['m'] = ⟨['X', 'Q'], ['m']⟩ ∧
-    evaluateRef ex2 (forwardrefOfText ['X', 'm', '.', 'Q'] ['m']) = .error .nameError ∧
-    -- while the references made from the class objects are right, as (a) says:
-    evaluateRef ex2 (forwardrefOfClass (cls 3 [['A'], ['m'], ['Q']] ['m'])) = .ok 3 ∧
-    evaluateRef ex2 (forwardrefOfClass (cls 5 [['X', 'm'], ['Q']] ['m'])) = .ok 5 := by
+theorem ex2_wf : wf ex2 = true := by decide
+
+/-- The tree before befc63c removed `"<module>."` wherever the characters occur: `A.m.Q` became `A.Q`, `Xm.Q` became `XQ`
+    (the reproduction `Outer.shapes.Q` / `Myshapes.A` in module `shapes`), and neither was found. -/
+theorem befc63c_needed :
+    forwardrefOfTextPreBefc63c ['A', '.', 'm', '.', 'Q'] ['m'] = ⟨['A', '.', 'Q'], ['m']⟩ ∧
+    evaluateRef ex2 (forwardrefOfTextPreBefc63c ['A', '.', 'm', '.', 'Q'] ['m']) = .error .attributeError ∧
+    forwardrefOfTextPreBefc63c ['X', 'm', '.', 'Q'] ['m'] = ⟨['X', 'Q'], ['m']⟩ ∧
+    evaluateRef ex2 (forwardrefOfTextPreBefc63c ['X', 'm', '.', 'Q'] ['m']) = .error .nameError ∧
+    evaluateRef ex2 (forwardrefOfTextPreBefc63c ['m', '.', 'X', 'm', '.', 'Q'] ['m']) = .error .nameError := by
+  decide
+
+/-- … while the current function finds both, bare and prefixed — by the theorem, not by evaluation. -/
+theorem befc63c_repairs :
+    (evaluateRef ex2 (forwardrefOfText ['A', '.', 'm', '.', 'Q'] ['m']) = .ok 3 ∧
+     evaluateRef ex2 (forwardrefOfText ['m', '.', 'A', '.', 'm', '.', 'Q'] ['m']) = .ok 3) ∧
+    (evaluateRef ex2 (forwardrefOfText ['X', 'm', '.', 'Q'] ['m']) = .ok 5 ∧
+     evaluateRef ex2 (forwardrefOfText ['m', '.', 'X', 'm', '.', 'Q'] ['m']) = .ok 5) :=
+  ⟨text_roundtrip_first_segment (c := cls 3 [['A'], ['m'], ['Q']] ['m']) ex2_wf (by decide) rfl rfl (by decide) (by decide),
+   text_roundtrip_first_segment (c := cls 5 [['X', 'm'], ['Q']] ['m']) ex2_wf (by decide) rfl rfl (by decide) (by decide)⟩
+
+/-- A dotted module name `p.q`:  class p: class q: class X (1, 2, 3);  class X (4);  class A: class p: class q: class Y
+    (5, 6, 7, 8). -/
+def pq : Str := ['p', '.', 'q']
+
+def ex4 : NS :=
+  { objs := [cls 1 [['p']] pq, cls 2 [['p'], ['q']] pq, cls 3 [['p'], ['q'], ['X']] pq, cls 4 [['X']] pq,
+             cls 5 [['A']] pq, cls 6 [['A'], ['p']] pq, cls 7 [['A'], ['p'], ['q']] pq,
+             cls 8 [['A'], ['p'], ['q'], ['Y']] pq],
+    binds := [⟨.modl pq, ['p'], 1⟩, ⟨.obj 1, ['q'], 2⟩, ⟨.obj 2, ['X'], 3⟩, ⟨.modl pq, ['X'], 4⟩,
+              ⟨.modl pq, ['A'], 5⟩, ⟨.obj 5, ['p'], 6⟩, ⟨.obj 6, ['q'], 7⟩, ⟨.obj 7, ['Y'], 8⟩] }
+
+theorem ex4_wf : wf ex4 = true := by decide
+
+/-- In module `p.q` the class path `p.q` (2) is not a PROPER continuation of the module's name and `A.p.q.Y` (8) does not
+    start with it: both are found bare and prefixed (the lookbehind excludes the dot before `p.q.` in `A.p.q.Y`; the tree
+    before befc63c read it as `A.Y`).  `p.q.X` (3) is found prefixed, and of course by its class (a). -/
+theorem dotted_module_roundtrip :
+    (evaluateRef ex4 (forwardrefOfText ['p', '.', 'q'] pq) = .ok 2 ∧
+     evaluateRef ex4 (forwardrefOfText ['p', '.', 'q', '.', 'p', '.', 'q'] pq) = .ok 2) ∧
+    (evaluateRef ex4 (forwardrefOfText ['A', '.', 'p', '.', 'q', '.', 'Y'] pq) = .ok 8 ∧
+     evaluateRef ex4 (forwardrefOfText ['p', '.', 'q', '.', 'A', '.', 'p', '.', 'q', '.', 'Y'] pq) = .ok 8) ∧
+    evaluateRef ex4 (forwardrefOfText ['p', '.', 'q', '.', 'p', '.', 'q', '.', 'X'] pq) = .ok 3 ∧
+    evaluateRef ex4 (forwardrefOfClass (cls 3 [['p'], ['q'], ['X']] pq)) = .ok 3 ∧
+    evaluateRef ex4 (forwardrefOfTextPreBefc63c ['A', '.', 'p', '.', 'q', '.', 'Y'] pq) = .error .attributeError :=
+  ⟨text_roundtrip_segments (c := cls 2 [['p'], ['q']] pq) ex4_wf (by decide) rfl rfl (by decide),
+   text_roundtrip_segments (c := cls 8 [['A'], ['p'], ['q'], ['Y']] pq) ex4_wf (by decide) rfl rfl (by decide),
+   text_roundtrip_prefixed (c := cls 3 [['p'], ['q'], ['X']] pq) ex4_wf (by decide) rfl rfl,
+   forwardref_roundtrip (c := cls 3 [['p'], ['q'], ['X']] pq) ex4_wf (by decide) rfl rfl, by decide⟩
+
+/-- … and the remaining ambiguity for a dotted module name: the bare `p.q.X` is read as `X` of module `p.q` (class 4). -/
+theorem dotted_module_ambiguity :
+    properPrefix (splitDots pq) [['p'], ['q'], ['X']] = true ∧
+    evaluateRef ex4 (forwardrefOfText ['p', '.', 'q', '.', 'X'] pq) = .ok 4 := by
   decide
 
 /-- (d) on the example: `f.<locals>.L` is named `f.L`, and `f` is a function. -/
@@ -814,6 +937,10 @@ theorem local_class_found_when_function_named_like_module :
     forwardrefOfClass (cls 2 [['f'], lm, ['L']] ['f']) = ⟨['L'], ['f']⟩ ∧
     evaluateRef ex3 (forwardrefOfClass (cls 2 [['f'], lm, ['L']] ['f'])) = .ok 2 := by
   decide
+
+/-- (d) befc63c changed the name of a local class, too: `Xm.<locals>.L` in module `m` is `Xm.L` now (it was `XL`). -/
+example : forwardrefOfClass (cls 2 [['X', 'm'], lm, ['L']] ['m']) = ⟨['X', 'm', '.', 'L'], ['m']⟩ ∧
+    forwardrefPreBefc63c (cls 2 [['X', 'm'], lm, ['L']] ['m']) = ⟨['X', 'L'], ['m']⟩ := by decide
 
 /-- (e) on the example: `R = NewType("I", int)` is named `I` and not found; `O = NewType("O", …)` and the alias `T` are;
     `S = NewType("A", …)` is named `A`, which is the class 6. -/
